@@ -138,6 +138,12 @@ theorem spine_newExpr_le (f op id : Nat) (l m r : Node) (args : List Node) :
   simp only [newExpr, spine]
   split <;> omega
 
+theorem spine_step {n : Node} {cnt f op id : Nat} {l m r : Node} {args : List Node}
+    (hn : spine n + (cnt + 1) ≤ spine (newExpr f op id l m r args) + (MaxExprDepth + 1)) :
+    spine n + cnt ≤ spine l + (MaxExprDepth + 1) := by
+  have := spine_newExpr_le f op id l m r args
+  omega
+
 /-- Each iteration of the postfix loop adds one level and one to the count; the guard stops the
 loop when the count exceeds `MaxExprDepth`. -/
 theorem post_operandLoop_spine (env : Env) (pe : P Node) :
@@ -149,12 +155,33 @@ theorem post_operandLoop_spine (env : Env) (pe : P Node) :
   | succ fuel ih =>
     intro cnt first lhs
     unfold operandLoop
-    post_auto
-    all_goals first
-      | (refine post_mono (ih _ _ _) ?_
-         intro n hn
-         have := spine_newExpr_le ‹_› ‹_› ‹_› lhs ‹_› ‹_› ‹_›
-         omega)
-      | skip
+    dsimp only
+    apply post_ite <;> intro hcnt
+    · exact post_failHere_bind
+    apply post_bind (post_true _)
+    intro x _
+    split
+    · apply post_bind (post_true _); intro flags _
+      apply post_bind (post_true _); intro args _
+      exact post_mono (ih _ _ _) (fun n hn => spine_step hn)
+    · split
+      · apply post_bind (post_true _); intro r _
+        obtain ⟨id0, mhs, rhs⟩ := r
+        exact post_mono (ih _ _ _) (fun n hn => spine_step hn)
+      · split
+        · apply post_bind (post_true _); intro _ _
+          apply post_bind (post_true _); intro sel _
+          apply post_bind (post_true _); intro selector _
+          exact post_mono (ih _ _ _) (fun n hn => spine_step hn)
+        · apply post_pure
+          omega
+
+/-- **The postfix chain of an operand is at most `MaxExprDepth + 1` long.** -/
+theorem post_operandAll_spine (env : Env) (pe : P Node) (lhs : Node) :
+    Post (operandAll env pe lhs) (fun n => spine n ≤ spine lhs + (MaxExprDepth + 1)) := by
+  unfold operandAll
+  apply post_bind (post_true _)
+  intro n _
+  exact post_mono (post_operandLoop_spine env pe (n + 1) 0 true lhs) (fun _ h => by omega)
 
 end WuffsVerif.Parse
